@@ -9,6 +9,7 @@ from .. import rfa_common as R
 from ..core import frac
 
 ID = "C04"
+THREADS = True       # part of the cases run concurrently in threads of one interpreter (the schedule dimension)
 MODULES = ["TWV.Properties.RfaImp", "TWV.Tie.RfaLoops", "TWV.Properties.C04"]
 TRANSLATORS = ["t4_rfaloops"]
 RULE = ("random cases over all six strategies plus a user-supplied sampling function: m in 2..20 (thorough: every (m,n) with "
